@@ -115,6 +115,38 @@ func genCase(t *rapid.T) Case {
 		maxSteps = 5
 	}
 	nsteps := rapid.IntRange(1, maxSteps).Draw(t, "steps")
+	vetOdds := 149 // (five virtual hours of heart-beats cost seconds of real time)
+	if evid.Thorough() {
+		vetOdds = 29
+	}
+	if rapid.IntRange(0, vetOdds).Draw(t, "veteran") == 0 {
+		// one case in a hundred and fifty (thorough: thirty): the network has been up for hours (sequence numbers start at the boot
+		// time in milliseconds and grow with every advertisement) when a router restarts faster than the
+		// dead interval, with one link fewer than before: its neighbours must take up the new
+		// incarnation's advertisements (seeded C18-r9-2 ignored sequence numbers that jump by more than
+		// 2^24, i.e. a restart after more than 4.7 hours of uptime)
+		ups := m.routers(true)
+		r := rapid.SampledFrom(ups).Draw(t, "veteranRouter")
+		st := Step{Chaos: 0}
+		st.Evs = append(st.Evs, Ev{K: "idle", Gap: rapid.SampledFrom([]int{16_800_000, 16_800_000, 17_500_000}).Draw(t, "uptimeMs")})
+		var mine [][2]int
+		for _, e := range m.upLinks() {
+			if e[0] == r || e[1] == r {
+				mine = append(mine, e)
+			}
+		}
+		st.Evs = append(st.Evs, Ev{K: "rmrouter", A: r, Gap: rapid.SampledFrom([]int{300, 2000, 9000, 20000}).Draw(t, "downFor")})
+		m.routerUp[r] = false
+		m.ann[r] = map[int]bool{}
+		if len(mine) >= 2 {
+			e := rapid.SampledFrom(mine).Draw(t, "veteranLink")
+			st.Evs = append(st.Evs, Ev{K: "rmlink", A: e[0], B: e[1]})
+			m.linkUp[lkey(e[0], e[1])] = false
+		}
+		st.Evs = append(st.Evs, Ev{K: "addrouter", A: r})
+		m.routerUp[r] = true
+		c.Steps = append(c.Steps, st)
+	}
 	for len(c.Steps) < nsteps {
 		kind := rapid.SampledFrom([]string{"fault", "fault", "app", "mixed", "mixed", "partition", "flap", "multihome"}).Draw(t, "stepKind")
 		chaos := rapid.SampledFrom([]int{0, 0, 8, maxChaos}).Draw(t, "chaos")
